@@ -177,6 +177,11 @@ func (e *Evidence) flush() {
 	_ = os.WriteFile(filepath.Join(outDir(), name), b, 0o644)
 }
 
+var atExit []func()
+
+// AtExit registers a cleanup to run after the tests, before the process exits.
+func AtExit(f func()) { atExit = append(atExit, f) }
+
 // Main is the TestMain body shared by all property packages.
 func Main(m *testing.M) {
 	slog.SetDefault(slog.New(slog.NewTextHandler(io.Discard, &slog.HandlerOptions{Level: slog.LevelError + 10})))
@@ -190,6 +195,9 @@ func Main(m *testing.M) {
 		}
 	}
 	code := m.Run()
+	for _, f := range atExit {
+		f()
+	}
 	evMu.Lock()
 	for _, e := range evAll {
 		e.flush()
